@@ -73,7 +73,7 @@ func (m *modelTable) tryImport(i int) string {
 }
 
 func runC17(h *hx.H) {
-	h.Rule = "every history of <=3 (quick) / <=4 (thorough) Symbols.Import calls over 6 files with planted name, extension-number and package/symbol collisions and fresh nested packages, once as linker results and once as Go-runtime descriptors, base.proto pre-imported; after every step Lookup over the whole name universe and LookupExtension over all numbers must equal an atomic reference table, and a failed import repeated at once must fail again; non-trivial = history with >=1 failing import"
+	h.Rule = "every history of <=3 (quick) / <=4 (thorough) Symbols.Import calls over 6 files with planted name, extension-number and package/symbol collisions and fresh nested packages, once as linker results and once as Go-runtime descriptors, base.proto pre-imported; after every step Lookup over the whole name universe and LookupExtension over all numbers must equal an atomic reference table; every history is run with the default handler and with a handler whose reporter records the errors and lets the import go on (failure = error returned or Handler.Error()), and a failed import repeated at once must fail again; non-trivial = history with >=1 failing import"
 	forms := buildForms()
 	maxLen := 3
 	if h.Thorough() {
@@ -97,7 +97,8 @@ func runC17(h *hx.H) {
 		rec = func() {
 			if len(hist) > 0 {
 				if idx, run := h.NextN(); run {
-					checkImportHistory(h, hx.CaseID(idx), fs, hist, names)
+					checkImportHistory(h, hx.CaseID(idx), fs, hist, names, false)
+					checkImportHistory(h, hx.CaseID(idx)+"/collecting-reporter", fs, hist, names, true)
 				}
 			}
 			if len(hist) == maxLen || h.TooMany() {
@@ -113,7 +114,17 @@ func runC17(h *hx.H) {
 	}
 }
 
-func checkImportHistory(h *hx.H, id string, fs formSet, hist []int, names []string) {
+// newHandler returns the default handler (stops at the first error) or, with collecting set, one
+// whose reporter records every error and lets the operation go on (the documented way to see all
+// errors); the import as a whole still fails with ErrInvalidSource then.
+func newHandler(collecting bool) *reporter.Handler {
+	if !collecting {
+		return reporter.NewHandler(nil)
+	}
+	return reporter.NewHandler(reporter.NewReporter(func(reporter.ErrorWithPos) error { return nil }, nil))
+}
+
+func checkImportHistory(h *hx.H, id string, fs formSet, hist []int, names []string, collecting bool) {
 	h.Eval(1)
 	h.State(1)
 	h.Trans(int64(len(hist)))
@@ -127,7 +138,11 @@ func checkImportHistory(h *hx.H, id string, fs formSet, hist []int, names []stri
 			}
 			parts = append(parts, s)
 		}
-		return fs.name + ": Import " + strings.Join(parts, ", ")
+		mode := ""
+		if collecting {
+			mode = " (error-collecting reporter)"
+		}
+		return fs.name + mode + ": Import " + strings.Join(parts, ", ")
 	}
 	syms := &linker.Symbols{}
 	if err := syms.Import(fs.base, reporter.NewHandler(nil)); err != nil {
@@ -161,7 +176,13 @@ func checkImportHistory(h *hx.H, id string, fs formSet, hist []int, names []stri
 				}
 			}
 		}
-		err := syms.Import(fs.files[x], reporter.NewHandler(nil))
+		// (with a collecting reporter a failed import can return nil; the failure is then the
+		// handler's: reporter.Handler.Error)
+		hd := newHandler(collecting)
+		err := syms.Import(fs.files[x], hd)
+		if err == nil {
+			err = hd.Error()
+		}
 		got := err == nil
 		if !got {
 			failures++
@@ -192,7 +213,8 @@ func checkImportHistory(h *hx.H, id string, fs formSet, hist []int, names []stri
 		}
 		if !got {
 			// importing the same file again must report the collision again
-			if err2 := syms.Import(fs.files[x], reporter.NewHandler(nil)); err2 == nil {
+			hd2 := newHandler(collecting)
+			if err2 := syms.Import(fs.files[x], hd2); err2 == nil && hd2.Error() == nil {
 				violate("import-retry-succeeds", fmt.Sprintf("%s: import %d failed (%v) but importing the same file again succeeds", desc(k), k, err))
 				return
 			}
